@@ -621,6 +621,15 @@ class ExperimentPackage(StorageStructurePathResolver):
                     # VV: It's OK for the conf folder to already exist, it could have commonly used pipeline definitions
                     # in it which the flowir we're copying into the conf dir $imports
                     os.makedirs(conf_dir)
+                else:
+                    # VV: The workflow definition is about to be written into conf. If the manifest populated conf with
+                    #     the :link method that would modify the folder the link points to instead of the instance
+                    real_instance_path = os.path.realpath(targetPath)
+                    real_conf_path = os.path.realpath(conf_dir)
+                    if os.path.commonpath([real_instance_path, real_conf_path]) != real_instance_path:
+                        raise ValueError("Manifest entry conf (%s) must be copied into the instance directory because "
+                                         "the workflow definition is stored in it, but it resolves to %s" % (
+                                             manifest['conf'], real_conf_path))
                 if file_format == "dsl":
                     shutil.copyfile(path, os.path.join(conf_dir, "dsl.yaml"))
                 else:
